@@ -61,6 +61,38 @@ pub fn oracle(case: &ProgCase, index: u64, ctx: &mut Ctx) {
             detail: format!("predicted ...{}... but the graph has ...{}...", e, g),
             case: json!({"index": index, "text": text}),
         });
+        return;
+    }
+    // the same program with a comment in every gap between two tokens: trivia is not part of
+    // the program, the graph must be the same
+    let toks = print_program(&case.stmts, Parens::Minimal);
+    for sep in ["/*c*/", "//c\n"] {
+        let ctext = layout_uniform(&toks, sep);
+        ctx.count("commented_layout_texts", 1);
+        let t2 = ctext.clone();
+        let r = catch(move || {
+            let res = parse_source_string(t2.as_str(), None);
+            if res.any_syntax_errors() {
+                return None;
+            }
+            let ex = Extractor { table: res.symbol_table() };
+            Some(ex.stmts(res.program().stmts()))
+        });
+        if let Ok(Some(g)) = r {
+            if g != expected {
+                let d = first_diff(&g, &expected);
+                let lo = d.saturating_sub(40);
+                let e: String = expected.chars().skip(lo).take(100).collect();
+                let gg: String = g.chars().skip(lo).take(100).collect();
+                ctx.fail(Failure {
+                    rule: "asg_skeleton".into(),
+                    witness: ctext.clone(),
+                    locus: format!("{} | commented layout", case.tag),
+                    detail: format!("predicted ...{}... but the graph has ...{}... (the same program laid out with blanks gives the predicted graph)", e, gg),
+                    case: json!({"index": index, "text": ctext}),
+                });
+            }
+        }
     }
 }
 
